@@ -97,6 +97,13 @@ func runKnut(bin string, timeout time.Duration, env []string, args ...string) (i
 	return 0, so.String(), se.String()
 }
 
+func canonPanic(m string) string {
+	if strings.HasPrefix(m, "panic") {
+		return "panic"
+	}
+	return m
+}
+
 func runC04(c *Ctx) {
 	n := c.N(6000, 120000)
 	bt := c.NewBatch()
@@ -167,6 +174,24 @@ func runC04(c *Ctx) {
 				c.Monitor("journal", i, "accept_iff_wellformed", in, false, implStr+" / "+msg+" => "+mon)
 			}
 		}, "c04mon", wire, verdict, off)
+		// the whole text -> parser -> model directive -> builder path against the Lean parser + FromSyntax + Accrual + Builder
+		{
+			ltext, kind := text, "none"
+			if i%3 == 0 {
+				ltext, kind = mutateJournalText(r, text)
+				lp := filepath.Join(dir, fmt.Sprintf("l%d.knut", i%64))
+				os.WriteFile(lp, []byte(ltext), 0o644)
+				path2 := lp
+				implDump := implLoadDump(path2)
+				lin := map[string]any{"journal": ltext, "mutation": kind}
+				c.Tag("loadtext:" + kind)
+				bt.Add(func(m string) { c.Compare("journal", i, "loadtext", lin, implDump, canonPanic(m)) }, "loadtext", Hex(ltext))
+			} else {
+				implDump := implLoadDump(path)
+				lin := map[string]any{"journal": ltext}
+				bt.Add(func(m string) { c.Compare("journal", i, "loadtext", lin, implDump, canonPanic(m)) }, "loadtext", Hex(ltext))
+			}
+		}
 		// the CLI gives the same verdict for check, print and balance, with a diagnostic naming the directive
 		if i%subEvery == 0 && c.KnutBin != "" {
 			for _, cmd := range []string{"check", "print", "balance"} {
